@@ -797,6 +797,26 @@ func equalOutsideArrays(x, y *Val, eps float64, inArray bool) bool {
 // harness's own (equalVals); jd's Equals and Diff are not consulted.
 func statusVsDocuments(s Session, r *sessRun, i int, pre *simos.FS) *Violation {
 	p, res, e := s.Procs[i], r.Res[i], r.Exp[i]
+	if e.Defined && e.Status == 2 && res.Code == 2 && res.Crash == "" && strings.HasPrefix(e.Why, "diff error:") {
+		// Model and process agree that the inputs cannot be diffed. Both use
+		// the readers of the tree under test; the harness's own JSON parser is
+		// the independent voice: a document it accepts, diffed with no option
+		// that could object and rendered in the native format (which cannot
+		// fail), must give 0 or 1.
+		f := parseArgv(p.Argv)
+		if f.err == "" && len(f.args) == 2 && !f.yaml && !f.set && !f.mset && f.setkeys == "" && f.precision == 0 && (f.format == "" || f.format == "jd") && f.translate == "" && !f.patch && !f.gitDiffDriver {
+			at, ok1 := pre.Files[f.args[0]]
+			bt, ok2 := pre.Files[f.args[1]]
+			if ok1 && ok2 {
+				_, err1 := parseDoc(string(at), false)
+				_, err2 := parseDoc(string(bt), false)
+				if err1 == nil && err2 == nil {
+					return viol14("valid-json-rejected", p, e, "exit status 2 (%s) although both inputs are JSON documents and no option is in play: a=%s b=%s; argv=%q", e.Why, show(at), show(bt), p.Argv)
+				}
+			}
+		}
+		return nil
+	}
 	if !e.Defined || e.Mode != "diff" || res.Crash != "" || (res.Code != 0 && res.Code != 1) {
 		return nil
 	}
